@@ -47,6 +47,20 @@ Theorem C10_stop_releases_footprint_close : forall ranges maxp maxpool s c n s' 
 Proof. exact close_releases_footprint. Qed.
 Print Assumptions C10_stop_releases_footprint_close.
 
+(* stop_releases_footprint with the state equivalence spelled out: a registration followed by its
+   CloseProxy leaves every table exactly as before the registration; the port managers are equal up to
+   the declared monotone memories (order of the free table, reserved-port memory: pm_eqv compares the
+   used table and the free SET); the session entries (proxies, quota counter, pool) are equal:
+   quota_returned is the seventh conjunct *)
+Theorem C10_register_then_close_restores_state : forall ranges maxp maxpool s c q s1 real s2,
+  reach ranges maxp maxpool s -> group_free_req q ->
+  y_register maxp s c q = Some (s1, ROk real) -> y_close maxp s1 c (q_name q) = Some s2 ->
+  sr_res s2 = sr_res s /\ sr_grp s2 = sr_grp s /\ sr_names s2 = sr_names s /\ sr_squat s2 = sr_squat s /\
+  pm_eqv (sr_tcp s) (sr_tcp s2) /\ pm_eqv (sr_udp s) (sr_udp s2) /\
+  (forall c0, ss_get c0 (sr_sess s2) = ss_get c0 (sr_sess s)) /\ fp s2 (q_name q) = [].
+Proof. exact register_then_close_restores. Qed.
+Print Assumptions C10_register_then_close_restores_state.
+
 (* stop_releases_footprint, paths 2-4 (connection drop, replacement by re-login, heartbeat timeout reach
    the same teardown) = session_end_releases_all_of_its_proxies: the session leaves the table, exactly its
    pooled work connections are closed, every proxy it owned has an empty footprint and a free name *)
@@ -75,6 +89,58 @@ Theorem C10_stop_releases_footprint_failed_registration : forall ranges maxp max
   nm_get (q_name q) (sr_names s) = None -> fp s' (q_name q) = [].
 Proof. exact failed_registration_releases_footprint. Qed.
 Print Assumptions C10_stop_releases_footprint_failed_registration.
+
+(* reregister_after_stop_succeeds: register p, stop it by CloseProxy, submit the identical request on the
+   same session: it succeeds (explicit remote port, or a type that uses no port; the oracles of the request
+   are those of the first registration) *)
+Theorem C10_reregister_after_stop_succeeds : forall ranges maxp maxpool s c q s1 real s2,
+  reach ranges maxp maxpool s -> group_free_req q -> (weight (q_type q) = 1 -> q_port q <> 0) ->
+  y_register maxp s c q = Some (s1, ROk real) -> y_close maxp s1 c (q_name q) = Some s2 ->
+  exists s3 real', y_register maxp s2 c q = Some (s3, ROk real').
+Proof. exact reregister_after_close_succeeds. Qed.
+Print Assumptions C10_reregister_after_stop_succeeds.
+
+(* a failed registration leaves nothing behind that could make a later registration fail: any request
+   that would succeed from the state before the failure succeeds from the state after it *)
+Theorem C10_failed_registration_can_be_retried : forall ranges maxp maxpool s c q s' e sa real,
+  reach ranges maxp maxpool s -> group_free_req q -> (weight (q_type q) = 1 -> q_port q <> 0 /\ q_lok q = true) ->
+  y_register maxp s c q = Some (s', RErr e) ->
+  forall q', q_group q' = ""%string -> (weight (q_type q') = 1 -> q_port q' <> 0 /\ q_lok q' = true) ->
+  y_register maxp s c q' = Some (sa, ROk real) -> exists sb real', y_register maxp s' c q' = Some (sb, ROk real').
+Proof. exact failed_registration_can_be_retried. Qed.
+Print Assumptions C10_failed_registration_can_be_retried.
+
+(* others_untouched: in every reachable state a registered proxy has every resource its object recorded,
+   under its own name; and stopping ANOTHER proxy (CloseProxy), ending ANOTHER session, or any registration
+   whatever its outcome keeps it registered with the same object, hence with all its resources *)
+Theorem C10_live_proxy_keeps_its_resources : forall ranges maxp maxpool s c ct m o k,
+  reach ranges maxp maxpool s -> ss_get c (sr_sess s) = Some ct -> nm_get m (ss_pxys ct) = Some o -> In k (po_slots o) ->
+  al_get slot_eqb k (sr_res s) = Some (OPxy m) /\ nm_get m (sr_names s) = Some c.
+Proof. exact live_proxy_keeps_its_resources. Qed.
+Print Assumptions C10_live_proxy_keeps_its_resources.
+
+Theorem C10_others_untouched_by_close : forall ranges maxp maxpool s c n s' c' ct' m o,
+  reach ranges maxp maxpool s -> y_close maxp s c n = Some s' -> m <> n ->
+  ss_get c' (sr_sess s) = Some ct' -> nm_get m (ss_pxys ct') = Some o ->
+  (exists ct2, ss_get c' (sr_sess s') = Some ct2 /\ nm_get m (ss_pxys ct2) = Some o) /\
+  (forall k, In k (po_slots o) -> al_get slot_eqb k (sr_res s') = Some (OPxy m)).
+Proof. exact others_untouched_by_close. Qed.
+Print Assumptions C10_others_untouched_by_close.
+
+Theorem C10_others_untouched_by_session_end : forall ranges maxp maxpool s c s' k0 c' ct' m o,
+  reach ranges maxp maxpool s -> y_end s c = Some (s', k0) -> c' <> c ->
+  ss_get c' (sr_sess s) = Some ct' -> nm_get m (ss_pxys ct') = Some o ->
+  ss_get c' (sr_sess s') = Some ct' /\ (forall k, In k (po_slots o) -> al_get slot_eqb k (sr_res s') = Some (OPxy m)).
+Proof. exact others_untouched_by_session_end. Qed.
+Print Assumptions C10_others_untouched_by_session_end.
+
+Theorem C10_others_untouched_by_registration : forall ranges maxp maxpool s c q s' r c' ct' m o,
+  reach ranges maxp maxpool s -> group_free_req q -> y_register maxp s c q = Some (s', r) ->
+  ss_get c' (sr_sess s) = Some ct' -> nm_get m (ss_pxys ct') = Some o ->
+  (exists ct2, ss_get c' (sr_sess s') = Some ct2 /\ nm_get m (ss_pxys ct2) = Some o) /\
+  (forall k, In k (po_slots o) -> al_get slot_eqb k (sr_res s') = Some (OPxy m)).
+Proof. exact others_untouched_by_registration. Qed.
+Print Assumptions C10_others_untouched_by_registration.
 
 (* cycles_do_not_grow: whatever happened before — any number of register/stop cycles, failures, session
    ends — once no proxy is registered every resource table is EMPTY (so its size after n cycles equals
@@ -124,7 +190,7 @@ Proof. exact cw_old_closenotify_never_closes. Qed.
 Print Assumptions C10_old_closenotify_never_closes.
 
 (* ---------- the hypotheses are satisfiable: a concrete non-trivial history ---------- *)
-Open Scope string_scope.
+Local Open Scope string_scope.
 Definition ex_req (t : ptype) (n : string) (port : Z) (doms : list string) : req :=
   {| q_type := t; q_name := n; q_port := port; q_group := ""; q_gkey := ""; q_domains := doms; q_locs := []; q_user := "";
      q_cred := ""; q_choice := None; q_lok := true; q_addok := true |}.
